@@ -4,6 +4,7 @@
 package main
 
 import (
+	"strings"
 	"encoding/json"
 	"flag"
 	"fmt"
@@ -27,9 +28,32 @@ func main() {
 	noEvidence := flag.Bool("no-evidence", false, "write evidence under a temp dir (used by the self-test on mutants)")
 	selftest := flag.String("selftest", "", "JSON summary written by selftest.py, embedded in the evidence (thorough tier)")
 	selftestStatus := flag.Int("selftest-status", 0, "exit status of selftest.py")
+	dumpFunc := flag.String("dump-func", "", "development aid: print the normal form of a function, e.g. 'L/core:(*gateImpl).Clear', and exit")
 	writeBaseline := flag.String("write-baseline", "", "write the table of top-level functions of -repo to this file and exit (re-pin of the analysis normal form)")
 	flag.Parse()
 
+	if *dumpFunc != "" {
+		repoAbs, _ := filepath.Abs(*repo)
+		prog, err := load.Load(repoAbs, "", false)
+		if err != nil {
+			fmt.Printf("ERROR %v\n", err)
+			os.Exit(2)
+		}
+		parts := strings.SplitN(*dumpFunc, ":", 2)
+		f := prog.Func(parts[0], parts[1])
+		if f == nil {
+			fmt.Println("not found")
+			os.Exit(2)
+		}
+		f.WriteTo(os.Stdout)
+		for _, a := range f.AnonFuncs {
+			a.WriteTo(os.Stdout)
+		}
+		for _, n := range prog.Glue {
+			fmt.Println("NOTE", n)
+		}
+		return
+	}
 	if *writeBaseline != "" {
 		repoAbs, _ := filepath.Abs(*repo)
 		prog, err := load.Load(repoAbs, "", false)
@@ -39,7 +63,7 @@ func main() {
 		}
 		out := "# top-level functions of the pinned tree (+ fix commits); see internal/load/norm.go\n"
 		for _, fn := range load.TopLevelSourceFuncs(prog.Prog) {
-			out += fn.String() + "\t" + load.SigKey(fn.Signature) + "\n"
+			out += fn.String() + "\t" + load.SigKey(fn.Signature) + "\t" + load.FullSigKey(fn.Signature) + "\n"
 		}
 		if err := os.WriteFile(*writeBaseline, []byte(out), 0o644); err != nil {
 			fmt.Printf("ERROR %v\n", err)
